@@ -19,15 +19,17 @@ table `ANN` written here from the class definitions."""
 import collections
 import itertools
 
-# TODO(main): docs/C03.candidate-1.md -- two faces of one defect found on the UNCHANGED tree;
-# until you decide (fix: commit or known finding) exactly these two signatures are counted
-# (evidence: keyed_probe.pending_*) but not reported as violations.
-#   face (a): a whole-value route handed a KeyedList / KeyedSet INSTANCE that itself holds
-#             non-conforming elements stores it as it is (check_type never looks inside).
-PENDING_KEYED_INSTANCE = True
-#   face (b): the declared KEY type of a KeyedList / KeyedSet attribute is never enforced
+# docs/C03.candidate-1.md: two faces of one defect this probe found on the then-unchanged tree,
+# fixed in /repo 3655f2b (check_type calls KeyedBase.__spec_class_check_type__; the sequence / set
+# inserters check the item's key against the declared key type).  Both are regression cases now:
+# with the flags off they are reported like any other violation (sig carries candidate_1_face)
+# and the histories draw them too.  (Setting a flag to True counts that face as pending instead.)
+#   face (a) 'instance': a whole-value route handed a KeyedList / KeyedSet INSTANCE that itself holds
+#             non-conforming elements stored it as it was (check_type never looked inside).
+PENDING_KEYED_INSTANCE = False
+#   face (b) 'key': the declared KEY type of a KeyedList / KeyedSet attribute was never enforced
 #             (items conform, their keys do not).
-PENDING_KEY_TYPE = True
+PENDING_KEY_TYPE = False
 
 INT, STR = ("int",), ("str",)
 ITEM, OTHER, WIDE, BOX = ("spec", "Item"), ("spec", "Other"), ("spec", "Wide"), ("spec", "Box")
@@ -600,7 +602,8 @@ def history(rng, n_ops, shapes):
             route, ip = rng.choice(list(routes_inplace()))
             kinds = [k for k in CONTAINERS if not (PENDING_KEYED_INSTANCE and bad and k in ("klist", "kset", "typed"))]
             op = {"route": route, "attr": attr, "inplace": ip, "full": rng.random() < 0.5,
-                  "arg": whole_arg(rng, attr, rng.choice(kinds), rng.choice([1, 2]) if bad else 0)}
+                  "arg": whole_arg(rng, attr, rng.choice(kinds), rng.choice([1, 2]) if bad else 0,
+                                 keybad=bad and attr == "wides" and rng.random() < 0.3)}
         elif r < 0.93:
             op = elem_op(rng, attr, rng.choice(HELPERS), "bad" if bad else "good")
             if PENDING_KEY_TYPE and attr == "wides":
